@@ -113,6 +113,13 @@ func Minimise(s *Schedule, key string, budget time.Duration, run func(*Schedule)
 					best, bestV = c, v
 				}
 			}
+			if best.Blocks[bi].Txs[ti].Sim && !out() {
+				c := best.Clone()
+				c.Blocks[bi].Txs[ti].Sim = false
+				if v := find(c); v != nil {
+					best, bestV = c, v
+				}
+			}
 			for len(best.Blocks[bi].Txs[ti].Ops) > 1 && !out() {
 				c := best.Clone()
 				c.Blocks[bi].Txs[ti].Ops = c.Blocks[bi].Txs[ti].Ops[1:]
